@@ -67,10 +67,11 @@ Variable ueqb : U -> U -> bool.
 Hypothesis ueqb_spec : forall a b, ueqb a b = true <-> a = b.
 Variable ustr : U -> str.
 Variable strip : bool.
-Hypothesis P_loose : loose_exit_rows = true.
-Hypothesis P_cases : pairs_follow_cases = true.
-Hypothesis P_save : split_rows_carry_save_name = true.
-Hypothesis P_group : group_split_without_cases_exports = true.
+Hypothesis Hrep : repaired.
+Notation P_loose := (rep_loose Hrep).
+Notation P_cases := (rep_cases Hrep).
+Notation P_save := (rep_save Hrep).
+Notation P_group := (rep_group Hrep).
 
 Variables (m : node U) (r : srouter U).
 Hypothesis Hk : n_kind m = NRouter U KSwitch r.
@@ -194,7 +195,7 @@ Proof.
                                  = (EGroup, [], Some (dec_split (sw_operand r) (sw_result r)))).
       { intros g0 a0. unfold abs_nkind. cbn [str_eqb N.eqb Pos.eqb andb t_wait t_split_value t_split_group].
         assert (Ef : fld_s U ([(lit "mainarg_groups", PL g0); (lit "obj_id", a0)] ++ split_save_name (sw_result r)) (lit "save_name") = sw_result r).
-        { unfold fld_s. cbn [app assoc_str str_eqb N.eqb Pos.eqb andb]. apply (save_name_fld U P_save). }
+        { unfold fld_s. cbn [app assoc_str str_eqb N.eqb Pos.eqb andb]. apply (save_name_fld U Hrep). }
         rewrite Ef, Eop. reflexivity. }
       destruct (sw_cases r) as [|k l] eqn:Ec.
       * rewrite P_group. eexists. eexists. split; [reflexivity|]. split; [reflexivity|]. apply Hn.
@@ -203,7 +204,7 @@ Proof.
         eexists. eexists. split; [reflexivity|]. split; [reflexivity|]. apply Hn.
     + eexists. eexists. split; [reflexivity|]. split; [reflexivity|]. unfold abs_nkind. cbn [str_eqb N.eqb Pos.eqb andb t_wait t_split_value].
       assert (Ef : fld_s U ([(lit "mainarg_expression", PS (sw_operand r))] ++ split_save_name (sw_result r)) (lit "save_name") = sw_result r).
-      { unfold fld_s. cbn [app assoc_str str_eqb N.eqb Pos.eqb andb]. apply (save_name_fld U P_save). }
+      { unfold fld_s. cbn [app assoc_str str_eqb N.eqb Pos.eqb andb]. apply (save_name_fld U Hrep). }
       rewrite Ef. reflexivity.
 Qed.
 
@@ -733,7 +734,7 @@ Qed.
 Theorem switch_good : node_good U ueqb ustr strip m.
 Proof.
   destruct sw_kwargs as (tp & q & Hkw & Htp & Hnk).
-  split; [apply (router_runnable U strip P_loose P_cases P_save P_group m tp q Ha Hkw Htp)|]. intros sn prs Hsn Hp.
+  split; [apply (router_runnable U strip m tp q Ha Hkw Htp)|]. intros sn prs Hsn Hp.
   pose proof (sw_pairs (last_row_id m sn)) as Hp'. rewrite Hp in Hp'. injection Hp' as Eprs.
   destruct (all_acts_router U m tp q _ _ Ha Hkw Hnk) as [Ei Ec].
   split; [|split].
